@@ -74,8 +74,8 @@ _SCHEMES = ['http://', 'HTTPS://', 'ftp://', '', '//', 'mailto:', 'localhost:', 
 _AUTH = ['example.com', 'EXAMPLE.com:80', 'u:p@h', 'us\u0101r@h', 'u:\u20ac@h', '[::1]', '[::1]:8080', '[::1%]]', '[::1%a b]', '[fe80::1%25eth0]', '[::ffff:1.2.3.4]', '[', ']', '[]', '[::1', 'h:', 'h:99999', 'h:-1',
          'h:' + '9' * 5000, 'h:x', '@', ':@:', 'bücher.example', '\ud800', 'a\udfffb', 'x' * 64 + '.example', '..', '.',
          '0x7f.1', '1.2.3.4.5', '999999999999', '0xG', 'h。example', '%41', 'h h', '١.example', '']
-_PATHS = ['', '/', '/a/../../b', '/%zz', '/\ud800', '/a b', '//', '/.', '?', '#']
-_QUERIES = ['', '?a=b&a=c', '?=&&=', '?a+b=%26', '?\ud800', '#frag', '?a#b?c', '?%', '?&', '?a=b=c']
+_PATHS = ['', '/', '/a/../../b', '/%zz', '/\ud800', '/a b', '//', '/.', '?', '#', '/\xff', '/\u044f\u042a']
+_QUERIES = ['', '?a=b&a=c', '?=&&=', '?a+b=%26', '?\ud800', '#frag', '?a#b?c', '?%', '?&', '?a=b=c', '?\xff=\xff', '?q=\u044f']
 
 
 def _structured(si, ai, pi, qi, enc):
@@ -127,7 +127,8 @@ def _child_url_entry(bi, li, entry):
 # abort a call that never returns
 _COSTLY = ['http://' + '1234567890' * 2 + '123456.cdn.example.com/', 'http://' + '9' * 25 + 'x.example/', 'http://0x' + 'f' * 24 + 'g.example/',
            'http://' + '1.' * 13 + 'x/', 'http://' + 'a' * 63 + '.' + 'b' * 63 + '.example/', 'http://h/' + '../' * 200 + 'x', 'http://h/?' + 'a=b&' * 300,
-           'http://' + '[' * 24 + ']' * 24 + '/', 'http://h/' + '%' * 500, 'http://' + '0' * 26 + '/', 'http://h:' + '9' * 26 + '/']
+           'http://' + '[' * 24 + ']' * 24 + '/', 'http://h/' + '%' * 500, 'http://' + '0' * 26 + '/', 'http://h:' + '9' * 26 + '/',
+           'http://assets-production-eu1-012345.{x}/app.js', 'http://' + 'a-b_c.' * 4 + '{{cdn}}/', 'http://' + 'a' * 25 + '!.example/', 'http://' + 'ab.' * 8 + '$/']
 
 
 def _parse_cost(i, logging_variant):
